@@ -2,6 +2,7 @@ package props
 
 import (
 	"fmt"
+	banktypes "github.com/cosmos/cosmos-sdk/x/bank/types"
 	"strings"
 	"time"
 
@@ -27,9 +28,10 @@ type MixWeights struct {
 	EntHostile                      int
 	ExactFeePct                     int
 	LowGasPct                       int
+	CoSignPct                       int // share of txs co-signed by a second account (extra MsgSend), half of them naming it as fee payer
 }
 
-var defaultMix = MixWeights{Ent: 30, Reg: 30, Stream: 15, Bank: 15, Staking: 5, NestedPct: 10, GranterPct: 6, BadSeqPct: 5, GovPct: 5, VetoPct: 2, EntHostile: 15, ExactFeePct: 70, LowGasPct: 2}
+var defaultMix = MixWeights{Ent: 30, Reg: 30, Stream: 15, Bank: 15, Staking: 5, NestedPct: 10, GranterPct: 6, BadSeqPct: 5, GovPct: 5, VetoPct: 2, EntHostile: 15, ExactFeePct: 70, LowGasPct: 2, CoSignPct: 5}
 
 // mixedGovChange pushes a random valid parameter change of one of the four modules through
 // governance (the enterprise denomination is never changed here; C14 owns that).
@@ -146,6 +148,24 @@ func RunMixed(e *Env, g *Gen, w MixWeights, nBlocks int) {
 					tx.Desc += fmt.Sprintf(" granter=a%d", g.idx(granter))
 				}
 			}
+			if tx.Spec.Granter == nil && len(tx.Spec.Signers) == 1 && r.Chance(w.CoSignPct) {
+				// a transaction of two signers: the second one contributes a bank transfer and, half of
+				// the time, is named as the fee payer (the fee - and any eFUND unlock - is then its own)
+				co, to := g.randAcct(), g.randAcct()
+				if !co.Addr.Equals(signer.Addr) {
+					tx.Spec.Msgs = append(tx.Spec.Msgs, banktypes.NewMsgSend(co.Addr, to.Addr, sdk.NewCoins(sdk.NewInt64Coin(lab.Denom2, 1))))
+					tx.Spec.Signers = append(tx.Spec.Signers, co)
+					tx.Desc += fmt.Sprintf(" cosigned=a%d", g.idx(co))
+					if r.Bool() {
+						tx.Spec.Payer = co.Addr
+						tx.Desc += "(payer)"
+					}
+					if tx.Spec.Gas == 0 {
+						tx.Spec.Gas = 600_000
+					}
+					e.C.Count("cosigned_txs", 1)
+				}
+			}
 			if r.Chance(w.BadSeqPct) {
 				tx.Spec.SeqDelta = int64(r.Range(1, 3))
 				tx.Desc += " BADSEQ"
@@ -179,16 +199,16 @@ func init() {
 	common := []string{"entity counts are small (<= 9 accounts); one bonded validator; governance voting period 10 s", "the enterprise denomination is never changed in these histories (C14 owns that)"}
 	fw.Register(&fw.Property{ID: "C02", Level: "exploration", Cases: cases(160, 6000), Assumptions: common, Need: []string{"mints", "block_boundaries"},
 		Rule: "each case: random genesis parameters (1-3 signers, account kinds incl. vesting, starting ids) + 40-60 block mixed history of enterprise / WRKChain / BEACON / stream / bank / staking txs, authz-nested and fee-granted variants, bad sequences, governance parameter changes and vetoed proposals (protocol burn). Per block phase and per tx: supply delta == completing orders - burn events; mint events only in BeginBlock by the enterprise account; at every boundary sum of all balances == supply per denom and every crisis-registered invariant holds. distinct = tx kind x nesting x outcome; non-trivial = history with >=1 mint and >=1 non-enterprise tx",
-		Run: func(c *fw.Ctx) { runMixedProp(c, "C02") }})
+		Run:  func(c *fw.Ctx) { runMixedProp(c, "C02") }})
 	fw.Register(&fw.Property{ID: "C04", Level: "exploration", Cases: cases(160, 6000), Assumptions: common, Need: []string{"completions", "unlocks", "book_checks"},
 		Rule: "mixed histories (as C02) with purchasers paying WRKChain/BEACON fees from locked eFUND and hostile transfers aimed at the escrow (MsgSend, MultiSend, authz-wrapped sends, streams towards it). At every boundary: escrow balance == TotalLocked == sum per-account locked, TotalSpent == sum per-account spent (keeper lists and the four gRPC queries), locked+spent == sum completed orders per account; every escrow delta attributed to an order completion (BeginBlock) or the payer's fee unlock. distinct = unlock kind; non-trivial = history with >=1 completion and >=1 unlock",
-		Run: func(c *fw.Ctx) { runMixedProp(c, "C04") }})
+		Run:  func(c *fw.Ctx) { runMixedProp(c, "C04") }})
 	fw.Register(&fw.Property{ID: "C05", Level: "exploration", Cases: cases(192, 8000), Assumptions: common, Need: []string{"unlocks_observed", "completions_observed"},
 		Rule: "mixed histories with purchasers of every account kind (base, delayed/continuous/periodic vesting, permanent-locked), fee sets {none, low, exact, high, extra denom}, fee granters, bad sequences, nested WRKChain/BEACON ops. Per DeliverTx for every account: locked falls only for the fee payer of a tx with a top-level WRKChain/BEACON message that passed ante, by exactly min(fee, locked), recorded as spent; at a completion the purchaser's spendable (same block time) does not rise. distinct = (account kind, locked vs fee, granter?, fee denoms, outcome)",
-		Run: func(c *fw.Ctx) { runMixedProp(c, "C05") }})
+		Run:  func(c *fw.Ctx) { runMixedProp(c, "C05") }})
 	fw.Register(&fw.Property{ID: "C17", Level: "exploration", Cases: cases(128, 4000), Assumptions: append(common, "total native supply stays below 2^63 (EnterpriseSupply is uint64-typed by its API)"), Need: []string{"supply_queries", "page_walks"},
 		Rule: "mixed histories with 3 denominations; at every block boundary, through the committed-state query context: SupplyOf/SupplyOfOverwrite for every denom, EnterpriseSupply, TotalUnlocked vs bank supply - TotalLocked; TotalSupply/TotalSupplyOverwrite walked with every page size 1..n+2 by key and by offset, each denom exactly once. distinct = (eFUND state zero/partial/spent, number of denoms)",
-		Run: func(c *fw.Ctx) { runMixedProp(c, "C17") }})
+		Run:  func(c *fw.Ctx) { runMixedProp(c, "C17") }})
 }
 
 func runMixedProp(c *fw.Ctx, prop string) {
